@@ -114,10 +114,17 @@ def gmm_case(case):
         cov = np.array([[0.25], [4.0], [9.0]])[:K]
     else:
         cov = np.array([(lambda B: B @ B.T + 0.3 * np.eye(d))(rs0.normal(size=(d, d))) for _ in range(K)])
+    int_params = False
+    if pidx == 2:            # all parameters written with integers (lists of ints): the samples are still real-valued Gaussians
+        int_params, pidx = True, 0
+        loc = np.round(loc).astype(int)
+        cov = np.array([[4], [1], [9]])[:K] if d == 1 else np.array([np.diag(np.arange(1, d + 1) + k) for k in range(K)])
+        loc, cov = loc.tolist(), cov.tolist()
     pvals = [np.ones(K) / K, np.array([0.5, 0.25, 0.25])[:K] if K == 3 else np.array([0.75, 0.25])][pidx]
-    where = dict(fn="draw_gmm", K=K, d=d, n=n)
+    where = dict(fn="draw_gmm", K=K, d=d, n=n, int_params=int_params)
     rec = Recorder(seed, labels=labels)
     X, y = draw_gmm(n, loc, cov, pvals, rec)
+    loc, cov = np.asarray(loc, dtype=float), np.asarray(cov, dtype=float)
     v = []
     if X.shape != (n, d) or y.shape != (n,):
         v.append(violation("wrong_shape", {"X": X.shape, "y": y.shape}, **where))
@@ -403,7 +410,7 @@ def explorers(tier, seed):
         for d in (1, 2, 3):
             for n in ((1, 2, 3, 4, 5) if thorough else (1, 2, 3, 4)):
                 for labels in itertools.product(range(K), repeat=n):
-                    for pidx in ((0, 1) if n <= 3 else (0,)):
+                    for pidx in ((0, 1, 2) if n <= 3 else (0,)):
                         c1.append((K, d, n, list(labels), pidx, seed))
     c2 = [(d, n, df, seed) for d in (1, 2, 3) for n in (1, 2, 5) for df in (1, 2.5, 10)]
     c3 = []
